@@ -432,11 +432,13 @@ var visModel = porcupine.Model{
 		case "read_pos", "upd_true":
 			return s == 1, s
 		case "read_zero", "upd_false":
-			return s == 0, s
+			return s == 0 || s == 2, s
 		case "evict":
 			return s == 1, 0
 		case "del":
-			return true, 0
+			// deleted is for good: no Finalise may succeed after the deletion took effect (state 2), so a
+			// piece filled and verified while Del was waiting for a hasher must be gone when Del returns
+			return true, 2
 		}
 		return true, s
 	},
